@@ -223,8 +223,9 @@ def run_vprocess(expdir, c, *, stop=(0, 0, 0), resume=True, init_path=None, swv=
             "flag": bool(aux.training), "events": eng.events, "opt_lr": o.param_groups[0]["lr"]}
 
 
-def gen_vhistory(rng, k=1):
-    """config, processes [(kind, j, p, resume, init, swv)], (val_steps, has_val), init θ"""
+def gen_vhistory(rng, k=1, restart=None):
+    """config, processes [(kind, j, p, resume, init, swv)], (val_steps, has_val), init θ;
+    `restart` = 0 / 1: force a process with resume=False (initialization = restart) over a directory holding checkpoints"""
     c = toy.gen_cfg(rng, k=k, T=rng.randint(8, 16), bs=rng.randint(1, 3))
     c["ck"] = rng.randint(1, 4)
     val_steps = rng.choice([2, 3, 4, 5, 7])
@@ -240,7 +241,10 @@ def gen_vhistory(rng, k=1):
     if rng.random() < 0.3:
         procs[0][3] = 0                     # the first process with resume=False (nothing to resume from anyway)
     tail = rng.random()
-    if tail < 0.25:                         # a process that resumes a finished run
+    if restart is not None:
+        procs[0][0:2] = [1, rng.randint(6, c["T"] - 1)]      # leaves checkpoints behind
+        procs.append([1, rng.randint(5, c["T"] - 1), 0, 0, restart, 0])
+    elif tail < 0.25:                       # a process that resumes a finished run
         procs.append([0, 0, 0, 1, int(rng.random() < 0.5), int(rng.random() < 0.5)])
     elif tail < 0.4:                        # restart from scratch over an existing directory
         procs.append([1, rng.randint(5, c["T"] - 1), 0, 0, int(rng.random() < 0.5), 0])
